@@ -48,7 +48,7 @@ func init() {
 	mc.Def(mc.Check{
 		ID:    "C25",
 		Level: "exploration",
-		Rule: "write kinds {fixed 1Min, fixed 1D, variable 1Sec, variable 1Min, variable 1H, variable 1Min with all records of all writes in one second} (2 rows each, variable rows at sub-interval offsets with seconds and nanoseconds); every history of <=3 writes x every partition into consecutive groups, where the writes of a group are queued by concurrent writers before ONE flush of the real SyncWAL loop (so a group is one transaction, possibly mixing fixed and variable write sets); " +
+		Rule: "write kinds {fixed 1Min, fixed 1D, variable 1Sec, variable 1Min, variable 1H, variable 1Min with all records of all writes in one second} (2 rows each, variable rows at sub-interval offsets with seconds and nanoseconds); every history of <=3 (thorough <=4) writes x every partition into consecutive groups, where the writes of a group are queued by concurrent writers before ONE flush of the real SyncWAL loop (so a group is one transaction, possibly mixing fixed and variable write sets); " +
 			"the master's ReplicationSender is captured, a replica server on another root applies every transaction through the real Replayer (ParseTGData + WriteCSM); every bucket is then queried on both sides over the day and over sub-ranges. non-trivial = >=2 writes",
 		Assume:   []string{"UTC", "master and replica are two server instances on one device with different roots (process globals are shared; both run without background sync at query time)", "variable timestamps may differ by one resolution step"},
 		QuickMax: 6 * time.Minute, ThorMax: 20 * time.Minute,
@@ -72,7 +72,11 @@ func c25Enum(c *mc.Ctx, yield func(c25Spec)) {
 			}
 			comp(n, nil)
 		}
-		if len(cur) == 3 {
+		maxLen := 3
+		if c.Thorough() {
+			maxLen = 4
+		}
+		if len(cur) == maxLen {
 			return
 		}
 		for k := range c25Kinds {
